@@ -384,7 +384,8 @@ BurstPaidOK(P, ln) ==          \* racing withdrawals never pay more than the wal
         reqs == ln.a.reqs
         \* credit booked directly by store operations of the same burst
         direct == SumOver([i \in DOMAIN reqs |-> IF reqs[i].op \in {"AddAccountBalance", "AddNodeBalance"} /\ reqs[i].amt > 0
-                                                  THEN reqs[i].amt ELSE 0], DOMAIN reqs)
+                                                  THEN reqs[i].amt
+                                                  ELSE IF reqs[i].op = "CreditLoop" THEN reqs[i].n * reqs[i].amt ELSE 0], DOMAIN reqs)
     IN \A w \in DOMAIN ln.st.paid :
           LET owed == prev.acct[w].credit + prev.dep[w] + trials + direct IN
           ln.st.paid[w] - prev.paid[w] <= (IF owed > 0 THEN owed ELSE 0)
@@ -415,7 +416,8 @@ BurstStep(ln) ==
                /\ PFinish(run.st, ln)
        ELSE \* no exact amounts (real clock): the ledger total may only move by the direct store credits of the burst
             LET delta == SumOver([i \in DOMAIN reqs |-> IF reqs[i].op \in {"AddAccountBalance", "AddNodeBalance"} /\ rs[i].ok
-                                                        THEN reqs[i].amt ELSE 0], DOMAIN reqs)
+                                                        THEN reqs[i].amt
+                                                        ELSE IF reqs[i].op = "CreditLoop" /\ rs[i].ok THEN reqs[i].n * reqs[i].amt ELSE 0], DOMAIN reqs)
             IN Finish([S EXCEPT !.trial = Put(S.trial, "(burst credits)", delta)], ln)
 
 PoolStep(ln) ==
